@@ -707,6 +707,36 @@ def sources(an, op, extra_through=(), limit=400, deep=False):
                         work.append(Operand({'c': {'l': st_.rv.place.local, 'pr': list(st_.rv.place.proj), 'own': list(st_.rv.place.own)}}))
                 continue
             ds = an.defs(l)
+            if l == p.local and p.proj[0].startswith('@') and ds:
+                # the payload of variant V: a definition that builds another variant (an aggregate of it, the failure value
+                # `from_residual` returns) does not feed it; plain moves carry the selection to what they move
+                V = p.proj[0][1:]
+                rest_pr = list(p.proj[2:]); rest_own = list(p.own[2:]) if len(p.own) >= 2 else [None] * len(rest_pr)
+                handled = True
+                pend = []
+                for d in ds:
+                    if d[0] == 'stmt' and d[3].rv.kind == 'agg' and d[3].rv.j['ak'] == 'adt':
+                        rv = d[3].rv
+                        if rv.j.get('variant') != V:
+                            continue
+                        names = rv.j.get('fields', [])
+                        if sel in names and len(names) == len(rv.ops):
+                            x_ = rv.ops[names.index(sel)]
+                            if x_.kind in ('copy', 'move') and rest_pr:
+                                x_ = Operand({'c': {'l': x_.place.local, 'pr': list(x_.place.proj) + rest_pr, 'own': list(x_.place.own) + rest_own}})
+                            pend.append(x_)
+                            continue
+                        handled = False
+                    elif d[0] == 'stmt' and d[3].rv.kind == 'use' and d[3].rv.ops[0].kind in ('copy', 'move'):
+                        q = d[3].rv.ops[0].place
+                        pend.append(Operand({'c': {'l': q.local, 'pr': list(q.proj) + list(p.proj), 'own': list(q.own) + list(p.own)}}))
+                    elif d[0] != 'stmt' and V in ('Ok', 'Some', 'Continue') and (d[3].rcallee or '').endswith('::from_residual'):
+                        continue
+                    else:
+                        handled = False
+                if handled:
+                    work.extend(pend)
+                    continue
             if ds and all(d[0] == 'stmt' and d[3].rv.kind == 'agg' and d[3].rv.j['ak'] in ('tuple', 'adt', 'closure') for d in ds):
                 done = True
                 for d in ds:
